@@ -159,9 +159,31 @@ pub fn gen_hostile(rng: &mut Rng) -> Module {
         main.cards.push(Card::set_property(Card::read_var("cyc"), Card::read_var("tbl"), Card::string_card("c")));
         main.cards.push(Card::set_property(Card::read_var("tbl"), Card::read_var("cyc"), Card::string_card("t")));
     }
+    let lost_keys = rng.chance(1, 3);
+    if lost_keys {
+        // keys that no lookup finds again: NaN, and a table that is changed while it is a key
+        main.cards.push(Card::set_var("lostk", c(CardBody::CreateTable)));
+        main.cards.push(Card::set_property(Card::string_card("held by a lost key"), Card::read_var("tbl"), Card::read_var("lostk")));
+        main.cards.push(c(CardBody::AppendTable(bin(Card::scalar_int(5), Card::read_var("lostk")))));
+        if rng.chance(1, 2) {
+            main.cards.push(Card::set_property(Card::scalar_int(2), Card::read_var("tbl"), c(CardBody::ScalarFloat(f64::NAN))));
+        }
+    }
     let n = 1 + rng.usize(3);
     for i in 0..n {
         main.cards.push(hostile_stmt(rng, i));
+    }
+    if lost_keys {
+        // everything that walks the table's entries
+        let consumer = match rng.below(6) {
+            0 => c(CardBody::Equals(bin(Card::read_var("tbl"), Card::read_var("tbl")))),
+            1 => Card::call_function("std.to_array", vec![Card::read_var("tbl")]),
+            2 => Card::call_function("std.sorted", vec![Card::read_var("tbl")]),
+            3 => Card::call_function("std.min", vec![Card::read_var("tbl")]),
+            4 => c(CardBody::Len(un(Card::read_var("tbl")))),
+            _ => Card::set_property(Card::scalar_int(1), c(CardBody::CreateTable), Card::read_var("tbl")),
+        };
+        main.cards.push(Card::set_global_var("walked", consumer));
     }
     main.cards.push(Card::set_global_var("done", Card::scalar_int(1)));
     let mut m = Module::default();
